@@ -46,11 +46,6 @@ Definition dcmp (a b : cdiag) : comparison :=
  (lex (str_cmp (c_tag a) (c_tag b))
       (str_cmp (c_msg a) (c_msg b)))))).
 
-Definition dle (a b : cdiag) : Prop := dcmp a b <> Gt.
-
-(* slices.SortFunc: some sorted permutation *)
-Definition is_sort (l s : list cdiag) : Prop := Permutation l s /\ StronglySorted dle s.
-
 (* ---- duplicate marking, backwards, and deletion ---- *)
 Definition fileref_eqb (a b : fileref) : bool := N.eqb (fr_id a) (fr_id b) && list_N_eqb (fr_path a) (fr_path b).
 Definition ofile_eqb (a b : option fileref) : bool :=
@@ -85,31 +80,60 @@ Fixpoint mark (l : list cdiag) : list cdiag * dkey :=
 Definition dedup (l : list cdiag) : list cdiag :=
   filter (fun d => negb (c_level d =? -1)) (fst (mark l)).
 
-(* Canonicalize: o is a possible value of r.Diagnostics afterwards *)
-Definition canon_rel (keep : bool) (l o : list cdiag) : Prop :=
-  exists s, is_sort l s /\ o = if keep then s else dedup s.
+(* ---- everything that depends on the comparison, for an arbitrary comparison ---- *)
+Section Generic.
+  Variable cmp : cdiag -> cdiag -> comparison.
 
-(* ---- one concrete sort: stable insertion sort ---- *)
-Fixpoint insert (x : cdiag) (s : list cdiag) : list cdiag :=
-  match s with
-  | [] => [x]
-  | y :: r => match dcmp x y with Gt => y :: insert x r | _ => x :: s end
-  end.
-Definition isort (l : list cdiag) : list cdiag := fold_right insert [] l.
-Definition canonicalize (keep : bool) (l : list cdiag) : list cdiag :=
-  if keep then isort l else dedup (isort l).
+  Definition dle_c (a b : cdiag) : Prop := cmp a b <> Gt.
 
-(* ---- hypotheses of the theorems ---- *)
+  (* slices.SortFunc: some sorted permutation *)
+  Definition is_sort_c (l s : list cdiag) : Prop := Permutation l s /\ StronglySorted dle_c s.
+
+  (* Canonicalize: o is a possible value of r.Diagnostics afterwards *)
+  Definition canon_rel_c (keep : bool) (l o : list cdiag) : Prop :=
+    exists s, is_sort_c l s /\ o = if keep then s else dedup s.
+
+  (* one concrete sort: stable insertion sort *)
+  Fixpoint insert_c (x : cdiag) (s : list cdiag) : list cdiag :=
+    match s with
+    | [] => [x]
+    | y :: r => match cmp x y with Gt => y :: insert_c x r | _ => x :: s end
+    end.
+  Definition isort_c (l : list cdiag) : list cdiag := fold_right insert_c [] l.
+  Definition canonicalize_c (keep : bool) (l : list cdiag) : list cdiag :=
+    if keep then isort_c l else dedup (isort_c l).
+
+  (* no two different diagnostics compare equal *)
+  Definition keys_injective_c (l : list cdiag) : Prop :=
+    forall a b, In a l -> In b l -> cmp a b = Eq -> a = b.
+
+  (* incremental.Run: the reports of the visited tasks are appended in visiting order (a stack fed by
+     sync.Map.Range, each task once), then canonicalised *)
+  Definition run_report_c (keep : bool) (visited : list (list cdiag)) (o : list cdiag) : Prop :=
+    canon_rel_c keep (concat visited) o.
+End Generic.
+
+(* ---- the code as it is: the six keys ---- *)
+Definition dle := dle_c dcmp.
+Definition is_sort := is_sort_c dcmp.
+Definition canon_rel := canon_rel_c dcmp.
+Definition insert := insert_c dcmp.
+Definition isort := isort_c dcmp.
+Definition canonicalize := canonicalize_c dcmp.
 (* no two different diagnostics agree on all six sort keys *)
-Definition keys_injective (l : list cdiag) : Prop :=
-  forall a b, In a l -> In b l -> dcmp a b = Eq -> a = b.
+Definition keys_injective := keys_injective_c dcmp.
+Definition run_report := run_report_c dcmp.
 (* no diagnostic already carries the deletion mark as its level *)
 Definition no_sentinel (l : list cdiag) : Prop := forall d, In d l -> c_level d <> -1.
 
-(* ---- incremental.Run: the reports of the visited tasks are appended in visiting order (a stack fed by
-   sync.Map.Range, each task once), then canonicalised ---- *)
-Definition run_report (keep : bool) (visited : list (list cdiag)) (o : list cdiag) : Prop :=
-  canon_rel keep (concat visited) o.
+(* ---- the proposed repair: two more keys after the six, the level and a rendering of everything else
+   (Diagnostic.tieBreak: inFile, snippets, notes, help, debug), for which c_rest stands ---- *)
+Definition dcmp2 (a b : cdiag) : comparison :=
+  lex (dcmp a b) (lex (Z.compare (c_level a) (c_level b)) (N.compare (c_rest a) (c_rest b))).
+(* in one report there is one File object per path (the File query is memoised per path) *)
+Definition one_file_per_path (l : list cdiag) : Prop :=
+  forall a b, In a l -> In b l -> sp_path (c_prim a) = sp_path (c_prim b) ->
+              sp_file (c_prim a) = sp_file (c_prim b).
 
 (* ---- correspondence ---- *)
 Definition cdiag_eqb (a b : cdiag) : bool :=
@@ -123,7 +147,9 @@ Fixpoint cdiags_eqb (a b : list cdiag) : bool :=
   | _, _ => false
   end.
 
-Definition dleb (a b : cdiag) : bool := match dcmp a b with Gt => false | _ => true end.
+Section Chk.
+Variable cmp : cdiag -> cdiag -> comparison.
+Definition dleb (a b : cdiag) : bool := match cmp a b with Gt => false | _ => true end.
 Fixpoint sortedb (l : list cdiag) : bool :=
   match l with
   | [] => true
@@ -134,7 +160,7 @@ Definition permb (l s : list cdiag) : bool :=
   Nat.eqb (length l) (length s) && forallb (fun x => Nat.eqb (count x l) (count x s)) l.
 
 Definition keys_injb (l : list cdiag) : bool :=
-  forallb (fun a => forallb (fun b => match dcmp a b with Eq => cdiag_eqb a b | _ => true end) l) l.
+  forallb (fun a => forallb (fun b => match cmp a b with Eq => cdiag_eqb a b | _ => true end) l) l.
 
 Inductive canon_case :=
 (* input l; Diagnostics after Canonicalize with KeepDuplicates (sorted), without (out), and after
@@ -143,7 +169,7 @@ Inductive canon_case :=
 (* cmp of two diagnostics as the real comparison function computes it: -1, 0, 1 *)
 | CCmp (a b : cdiag) (c : Z).
 
-Definition canon_chk (c : canon_case) : bool :=
+Definition canon_chk_c (c : canon_case) : bool :=
   match c with
   | CCanon l sorted out twice =>
     permb l sorted && sortedb sorted && cdiags_eqb (dedup sorted) out &&
@@ -152,5 +178,9 @@ Definition canon_chk (c : canon_case) : bool :=
     (* the only possible second outcome, inside the hypotheses of C36_canon_idempotent_unique *)
     (if forallb (fun d => negb (c_level d =? -1)) l && keys_injb l then cdiags_eqb twice out else true)
   | CCmp a b c =>
-    match dcmp a b with Lt => c =? -1 | Eq => c =? 0 | Gt => c =? 1 end
+    match cmp a b with Lt => c =? -1 | Eq => c =? 0 | Gt => c =? 1 end
   end.
+End Chk.
+
+Definition canon_chk := canon_chk_c dcmp.            (* the code as it is *)
+Definition canon_chk_repaired := canon_chk_c dcmp2.  (* after the proposed tie-break repair *)
